@@ -236,6 +236,20 @@ def noDroppedRedirect (k : Nat) (cmds : List TCmd) (evs : List TEv) : Bool :=
       | some e => !(isRedirectReply e.reply && mustFollow cmds evs c.id)
       | none => true
 
+/-- What the previous command on a slot teaches the client about that slot. `prev` is the one redirect that
+    command met (`none`, `ask`, `mv`), answered by `prevFirst` (the node it was sent to first) and naming
+    `target`; `fresh` says the client had no connection to `target` before. `nowFirst` is the node the next
+    command on the same slot is sent to first (no refresh in between).
+    ASK is one-shot: the slot still belongs to `prevFirst`, the next command starts there.
+    MOVED to a node new to the client moves the slot: the next command starts at `target`; for a node the client
+    already knew either start is accepted (the table is corrected by the background refresh). -/
+def stickyVerdict (prev : String) (fresh : Bool) (prevFirst target nowFirst : String) : String :=
+  if prev == "ask" then (if nowFirst == prevFirst then "ok" else "bad:ask-rewrote-slot-table")
+  else if prev == "mv" then
+    (if fresh then (if nowFirst == target then "ok" else "bad:moved-not-learned")
+     else if nowFirst == target || nowFirst == prevFirst then "ok" else "bad:moved-elsewhere")
+  else (if nowFirst == prevFirst then "ok" else "bad:route-changed")
+
 /-- verdict on one observed run -/
 def judge (k : Nat) (cmds : List TCmd) (results : List String) (calls : List TCall) (evs : List TEv) : String :=
   if !positional cmds.length results evs then "bad:positional"
